@@ -205,7 +205,7 @@ class Scheduler:
         st = self.__dict__.setdefault("_sweep", {"key": None, "plan": None, "opened": False})
         if st["key"] is None or st["key"] not in self.handles:
             cid = self._client()
-            st.update(key=None, plan=None, opened=False)
+            st.update(key=None, plan=None, opened=False, phase2=False)
             op = self._construct(cid)
             st["key"] = "%s.%s" % (op[1], op[2])
             return op
@@ -223,8 +223,26 @@ class Scheduler:
                 if key in self.handles:
                     return ["READ", self.handles[key].cid, self.handles[key].hid, path]
             return ["READ", hv.cid, hv.hid, st["plan"].pop()]
+        if not st.get("phase2"):
+            # second phase: the objects the partition handed out (min-base mask, pairwise
+            # test objects, ...) - every property of each, shuffled
+            st["phase2"] = True
+            plan = []
+            for nk in sorted(hv.nodes):
+                path, cls = hv.nodes[nk]
+                if cls in PARTITION_CLASSES or cls in ("cube.Cube", "cube.CubeSet") or not path:
+                    continue
+                if path[0] not in ("partitions", "partition_sets"):
+                    continue
+                for p in self.surface.get(cls, {"props": []})["props"]:
+                    if pkey(path + [p]) not in hv.read_keys:
+                        plan.append(path + [p])
+            r.shuffle(plan)
+            st["plan"] = plan[:60]
+            if st["plan"]:
+                return ["READ", hv.cid, hv.hid, st["plan"].pop()]
         # plan exhausted: another object on the same (by now edited) arguments
-        st.update(key=None, plan=None, opened=False)
+        st.update(key=None, plan=None, opened=False, phase2=False)
         return self._next_sweep_op()
 
     def next_op(self):
